@@ -59,6 +59,11 @@ CHECKS = {
    "One injected fault per run: cancel() from a canceller thread after a seeded number of scheduling points (MTGraph) or from inside a block's k-th call (Graph), or a pass-through block failing on its k-th call at a seeded chain position; infinite and finite sources; both runners. After cancel() returned no block may be invoked more than 2 (MTGraph) / 1 (Graph) more times, run() returns Ok and leaves no thread; a failing work() must come back as that Err from run(), never a panic, hang or Ok.",
    "Bound on further calls is the harness's reading of 'bounded'. Spawn failure is not injected (not part of the property).",
    "deterministic simulation: fault injection (cancel / block error) at seeded points under seeded schedules", "5/C07"),
+
+ "C13": ("rig", "fault_enumeration",
+   "A transmitter model (CRC-16/X.25, LSB-first, stuffing, 1-3 opening flags, shared/separate flags, payloads 0..max+2 incl. stuffing-heavy contents) feeds the real HdlcDeframer through the drip-feed rig with channel faults (random noise prefix, prefixes ending in a partial flag, 1-2 flipped bits in a chosen frame) and seeded min/max/checksum/fix settings. The output list must have an order-preserving explanation: every MUST frame delivered once, no flipped frame delivered (or only repaired to the original), nothing with a failing FCS according to a spec-level reference deframer, nothing unexplained on a clean channel, sizes within bounds.",
+   "Boundary sizes, empty frames with min_size 0, frames whose delimiting flag is overlapped by another flag pattern, and reference-valid noise-born frames are MAY.",
+   "deterministic simulation: channel fault injection (noise, bit flips) x seeded delivery schedules, reference-deframer oracle", "5/C13"),
 }
 PENDING_REASON = "check not built yet in this session (planned in DESIGN.md section 5); not a claim that the property is out of reach"
 
@@ -94,7 +99,7 @@ def main():
         "engines": [
             {"name": "mtsim", "path": "sim/src/rt.rs, sim/src/mt.rs, sim/src/graphs.rs", "serves_properties": ["C03", "C04", "C05", "C07"], "kind_free_text": "baton scheduler over real OS threads behind the std shim: one seeded decision per lock/unlock/wait/notify/time-out/spawn/join/atomic point; real MTGraph and streams"},
             {"name": "graphsim", "path": "sim/src/graphsim.rs", "serves_properties": ["C06", "C07"], "kind_free_text": "real Graph::run under virtual time on generated graphs, add-order permutations"},
-            {"name": "rig", "path": "sim/src/rig.rs, sim/src/blocks.rs, sim/src/rigcheck.rs", "serves_properties": ["C08", "C09", "C10", "C11", "C12"], "kind_free_text": "drip-feed environment for one block: harness owns all peers of a real block on real streams; seeded feed/drain/work schedules; virtual time"},
+            {"name": "rig", "path": "sim/src/rig.rs, sim/src/blocks.rs, sim/src/rigcheck.rs", "serves_properties": ["C08", "C09", "C10", "C11", "C12", "C13"], "kind_free_text": "drip-feed environment for one block: harness owns all peers of a real block on real streams; seeded feed/drain/work schedules; virtual time"},
             {"name": "bufsim", "path": "sim/src/bufsim.rs", "serves_properties": ["C01", "C02"], "kind_free_text": "seeded single-thread op-history simulator over Buffer<T> with a deque reference model"},
         ],
         "checks": checks,
